@@ -309,6 +309,23 @@ CLAIMED["C24"] = (
     "DESIGN.md section 6 C24",
 )
 
+CLAIMED["C19"] = (
+    "Grid.compute_geometry (1-d and 2-d paths, compute_tangent) is executed on Cartesian, structured-triangle and "
+    "tensor grids with concrete topology in which 1-3 nodes (1-d: all nodes) are displaced by SYMBOLIC amounts. For all "
+    "displacements in the box the solvers decide: cell volumes are positive, equal the polygon area of the cell "
+    "(shoelace formula on the node loop) and sum to the domain measure; face areas equal the node distance and the "
+    "normal length; face centres are midpoints; sign * normal points out of the cell; the signed normals of every "
+    "cell sum to zero; sum sign (x_f . n_f) = dim * V and sum sign (x_f . n_f) x_f = (dim+1) V x_c.",
+    "Node displacements in [-1/8, 1/8]^2 on unit-size cells (cells stay convex); at most 3 displaced nodes at a "
+    "time (2x2 Cartesian, 2x2 triangle, thorough also 3x2 Cartesian); 1-d grids with 3-5 cells on the x-axis; 3-d "
+    "grids and embedded grids are outside. Equalities: z3 (nonlinear real arithmetic, on the cone of influence of "
+    "the claim first); strict inequalities that hold with a margin: interval branch-and-bound with outward "
+    "rounding (dReal-style, own implementation, mean-value form using the symbolic differentiator), z3 otherwise.",
+    "symbolic execution of the real Python source over real terms + SMT (z3 nlsat) + interval branch-and-bound for "
+    "inequalities",
+    "DESIGN.md section 6 C19",
+)
+
 CLAIMED["C27"] = (
     "SubdomainProjections (cell and face restriction / prolongation), MortarProjections (all eight maps and the "
     "side-sign matrix) and BoundaryProjection are built by the real code for ordered lists (all orders and sub-"
